@@ -143,6 +143,10 @@ func exhaustiveTable() []caseDef {
 			c = base("updater.GetFile(first attempt fails)", shared.OpGetFile, st, tmpSandbox)
 			c.FlakyServer = true
 			add(c)
+			c = base("updater.GetFile(first attempt cut, no content length)", shared.OpGetFile, st, tmpSandbox)
+			c.FlakyServer = true
+			c.FlakyCloseDelimited = true
+			add(c)
 		}
 	}
 	for _, st := range []string{stAbsent, stPresent} {
